@@ -95,6 +95,7 @@ func StdMenu(u *prog.Universe, t *prog.Table, pfx string) []chain.GenContract {
 	t.DefineInit(pfx+"i2", []prog.Op{}, u)
 	t.DefineInit(pfx+"i3", []prog.Op{logN(1)}, u)                             // used with empty runtime code
 	t.DefineInit(pfx+"i4", []prog.Op{sstore("s0", 1), selfdestruct("a2")}, u) // constructor self-destructs
+	t.DefineInit(pfx+"i5", []prog.Op{sstore("s0", 1), {Op: "REVERT", N: 1}}, u) // constructor ends in revert("") (well-formed empty reason)
 
 	cr := func(salt uint64, init string, value int64, addrName string) prog.Op {
 		return prog.Op{Op: "CREATE2", Init: pfx + init, Runtime: pfx + "rt", Value: value, Salt: salt, Addr: addrName}
@@ -1012,7 +1013,7 @@ func (w *World) genEthSpec(nextNonce map[string]uint64, baseFee int64, created *
 		s.Gas = pick(r, uint64(21000), 21000, 30000, 60000)
 	case k < 5:
 		s.To = "create"
-		s.Init = w.Tid + "_" + pick(r, "i0", "i1", "i2", "i2", "i3", "i4")
+		s.Init = w.Tid + "_" + pick(r, "i0", "i1", "i2", "i2", "i3", "i4", "i5")
 		s.Runtime = w.Tid + "_rt"
 		if strings.HasSuffix(s.Init, "i3") || strings.HasSuffix(s.Init, "i4") || r.Intn(6) == 0 {
 			s.Runtime = "none" // a creation that succeeds and leaves no code behind
